@@ -65,13 +65,25 @@ impl Pass0Context {
     }
 
     pub fn as_pass0_result(&self) -> BuildResultPass0 {
-        let segments = self
+        let mut segments: Vec<Segment> = self
             .segments
             .borrow()
             .iter()
-            .filter(|x| !x.borrow().is_empty())
             .map(|x| x.borrow().clone())
             .collect();
+        // an origin that never saw an item (`.org 4` / `.dseg` / ... / `.cseg`) goes to the next
+        // segment of its type, unless that one has an origin of its own
+        for i in 0..segments.len() {
+            if segments[i].is_empty() && segments[i].address != 0 {
+                let (address, t) = (segments[i].address, segments[i].t);
+                if let Some(next) = segments[i + 1..].iter_mut().find(|x| x.t == t) {
+                    if next.address == 0 {
+                        next.address = address;
+                    }
+                }
+            }
+        }
+        segments.retain(|x| !x.is_empty());
         let messages = self.messages.borrow().clone();
 
         BuildResultPass0 { segments, messages }
@@ -217,7 +229,7 @@ fn macro_expand(
         .borrow()
         .iter()
         .enumerate()
-        .filter(|(i, x)| *i == last || !x.borrow().is_empty())
+        .filter(|(i, x)| *i == last || !x.borrow().is_empty() || x.borrow().address != 0)
         .map(|(_, x)| x.borrow().clone())
         .collect();
 
